@@ -1,6 +1,6 @@
 # C12 — a "dead code" report is never a false positive
 SKELS = ["Bss", "BsAs", "BAss", "BAsAs", "Bsn", "Bns", "Bvn", "Bnv", "Bvs", "Bsv", "Bvv", "BsFs", "BFss", "BBsss", "BsBss",
-         "BFAss", "BsFAs", "BAvn", "BFvn", "BAvs", "BBvnn", "BBvns", "BsBvn", "BAFss", "BsAFs", "BAsFs", "BFsAs", "BAsv", "BvAs"]
+         "BFAss", "BsFAs", "BAvn", "BFvn", "BAvs", "BBvnn", "BBvns", "BsBvn", "BAFss", "BsAFs", "BAsFs", "BFsAs", "BAsv", "BvAs", "BFAsAs", "BAsFAs"]
 
 NODE_TAGS = ["nm", "num", "aop", "aggop", "cvl", "fn", "fnalt", "dst", "op", "arith", "cmp", "card", "on", "ml0", "ml1", "ml2",
              "inc0", "inc1", "inc2", "without", "grp0", "grp1", "grp2"]
@@ -64,19 +64,64 @@ def jobs(tier):
     D = "VerifHarness_Dead"
     out = []
     if tier == "quick":
+        # label lists and matcher labels over {a, b}; one matcher on at most one selector per side
         out += vv(D, "Bss", VV_QUICK, ulist=2, ulab=2)
-        out += vv(D, "BsAs", VV_QUICK, ulist=2, ulab=2, n3_nm=0, n2_aop=[0], n2_aggop=0)
-        return out
-    if tier == "dev":
-        # development sweep
+        out += vv(D, "BsAs", VV_QUICK, ulist=2, ulab=2, n3_nm=0, n2_aop=0, n2_aggop=0)
+        out += vv(D, "BAss", [(0, 0), (0, 2), (3, 0)], ulist=2, ulab=2, n2_nm=0, n1_aop=0, n1_aggop=0)
+        out += vv(D, "BsAs", [(0, 1)], ulist=2, ulab=2, n3_nm=0, n2_aop=2, n2_cvl=[0, 2])
+        out += vv(D, "BAsAs", [(0, 0), (0, 1), (4, 0)], nm=0, ulist=2, ulab=2, n1_aop=0, n1_aggop=0, n3_aop=0, n3_aggop=0)
         out += expand(D, "Bvn", n0_op=[1, 2], n0_cmp=[0, 1, 2, 3, 4, 5])
-        out += expand(D, "Bnv", n0_op=[1, 2], n0_cmp=[0, 1, 2, 3, 4, 5])
-        out += expand(D, "Bvn", n0_op=[0], n0_arith=[0, 1, 2, 3, 4, 5, 6])
-        out += expand(D, "Bsn", n0_op=[0, 1, 2])
-        out += expand(D, "Bns", n0_op=[0, 1, 2])
-        out += vv(D, "Bvv", VV)
-        out += vv(D, "Bvs", VV_QUICK, ulist=2, ulab=2)
-        out += vv(D, "Bsv", VV_QUICK, ulist=2, ulab=2)
+        out += expand(D, "Bnv", n0_op=[1, 2], n0_cmp=[0, 1])
+        out += expand(D, "Bsn", n0_op=[0, 1, 2]) + expand(D, "Bns", n0_op=[1])
+        out += vv(D, "Bvv", [(1, 0), (2, 0), (0, 1), (3, 0), (4, 0), (5, 0)], ulist=2)
+        out += vv(D, "Bvs", [(0, 0), (0, 1), (4, 0), (5, 0)], ulist=2, ulab=2)
+        out += vv(D, "Bsv", [(0, 0), (0, 2), (3, 0), (4, 0)], ulist=2, ulab=2)
+        out += vv(D, "BsFs", [(0, 0), (0, 1), (3, 0)], ulist=2, ulab=2, n3_nm=0, n2_fn=[0, 1], n2_fnalt=0)
+        out += vv(D, "BFss", [(0, 1)], ulist=2, ulab=2, n3_nm=0, n1_fn=2, n1_fnalt=0, n1_dst=[0, 2])
+        out += expand(D, "BAvn", n0_op=1, n0_cmp=[1, 2], n1_aop=0, n1_aggop=[0, 7], ulist=1)
+        out += expand(D, "BFvn", n0_op=1, n0_cmp=[0], n1_fn=0, n1_fnalt=[0, 3])
+        out += vv(D, "BAsv", [(0, 0)], ulist=2, ulab=2, n1_aop=0, n1_aggop=0)
+        out += vv(D, "BFAsAs", [(0, 0), (0, 1)], ulist=2, ulab=1, n5_nm=0, n1_fn=0, n1_fnalt=0, n2_aop=0, n2_aggop=0, n2_without=1, n4_aop=0, n4_aggop=0, n4_without=1)
+        return out
+    if tier == "thorough":
+        U = dict(ulist=3, ulab=3)
+        out += vv(D, "Bss", VV, **U)
+        out += vv(D, "Bss", VV_QUICK, nm=2, ulist=2, ulab=2, n2_nm=0)
+        for sk, a, o in (("BsAs", 2, 3), ("BAss", 1, 2)):
+            pin = {"n%d_nm" % o: 0}
+            out += vv(D, sk, VV, **U, **pin, **{"n%d_aop" % a: [0, 1], "n%d_aggop" % a: 0})
+            out += vv(D, sk, VV, **U, **pin, **{"n%d_aop" % a: 2, "n%d_cvl" % a: [0, 1, 2]})
+            out += vv(D, sk, VV_QUICK, ulist=2, ulab=2, **{"n%d_aop" % a: 0, "n%d_aggop" % a: [1, 7, 8]})
+        out += vv(D, "BAsAs", VV, nm=0, **U, n1_aop=0, n1_aggop=0, n3_aop=[0, 1], n3_aggop=0)
+        out += vv(D, "BAsAs", VV_QUICK, nm=1, ulist=2, ulab=2, n1_aop=0, n1_aggop=0, n3_aop=0, n3_aggop=0)
+        out += expand(D, "Bvn", n0_op=[0, 1, 2], n0_cmp=[0, 1, 2, 3, 4, 5], n0_arith=[0, 1, 2, 3, 4, 5, 6])
+        out += expand(D, "Bnv", n0_op=[0, 1, 2], n0_cmp=[0, 1, 2, 3, 4, 5], n0_arith=[0, 1, 2, 3, 4, 5, 6])
+        out += expand(D, "Bsn", n0_op=[0, 1, 2], **U) + expand(D, "Bns", n0_op=[0, 1, 2], **U)
+        out += vv(D, "Bvv", VV, n0_cmp=[0, 1, 2, 3, 4, 5], **U)
+        out += vv(D, "Bvs", VV, **U) + vv(D, "Bsv", VV, **U)
+        for sk, f, o in (("BsFs", 2, 1), ("BFss", 1, 3)):
+            out += vv(D, sk, VV, **U, **{"n%d_fn" % f: [0, 1], "n%d_fnalt" % f: [0, 2]})
+            out += vv(D, sk, VV, **U, **{"n%d_fn" % f: 2, "n%d_fnalt" % f: 0, "n%d_dst" % f: [0, 1, 2]})
+        out += vv(D, "BBsss", VV_QUICK, ulist=2, ulab=2, n1_op=[0, 3, 5], n1_card=[0, 1], n1_arith=0, n4_nm=0)
+        out += vv(D, "BsBss", VV_QUICK, ulist=2, ulab=2, n2_op=[0, 3, 5], n2_card=[0, 1], n2_arith=0, n1_nm=0)
+        out += expand(D, "BAvn", n0_op=[1, 2], n0_cmp=[0, 1, 2, 3, 4, 5], n1_aop=[0, 1, 2], ulist=1)
+        out += expand(D, "BFvn", n0_op=[1, 2], n0_cmp=[0, 1, 2, 3, 4, 5], n1_fn=[0, 2])
+        out += expand(D, "BBvnn", n0_op=[1, 2], n0_cmp=[0, 1, 2], n1_op=[0, 2], n1_arith=[0, 1, 2, 3], n1_cmp=[0, 1])
+        out += vv(D, "BAvs", VV_QUICK, ulist=2, ulab=2, n1_aop=0, n1_aggop=0)
+        out += vv(D, "BAsv", VV_QUICK, ulist=2, ulab=2, n1_aop=0, n1_aggop=0)
+        out += vv(D, "BvAs", VV_QUICK, ulist=2, ulab=2, n2_aop=0, n2_aggop=0)
+        out += vv(D, "BBvns", VV_QUICK, ulist=2, ulab=2, n1_op=[0, 1], n1_arith=0, n1_cmp=0)
+        out += vv(D, "BsBvn", VV_QUICK, ulist=2, ulab=2, n2_op=[0, 1], n2_arith=0, n2_cmp=0)
+        for sk, pins in (("BFAss", dict(n4_nm=0, n1_fn=[0, 1], n1_fnalt=0, n2_aop=0, n2_aggop=0)),
+                         ("BsFAs", dict(n1_nm=0, n2_fn=[0, 1], n2_fnalt=0, n3_aop=0, n3_aggop=0)),
+                         ("BAFss", dict(n4_nm=0, n2_fn=[0, 2], n2_fnalt=0, n2_dst=0, n1_aop=0, n1_aggop=0)),
+                         ("BsAFs", dict(n1_nm=0, n3_fn=[0, 2], n3_fnalt=0, n3_dst=0, n2_aop=0, n2_aggop=0)),
+                         ("BAsFs", dict(n2_nm=0, n3_fn=0, n3_fnalt=0, n1_aop=0, n1_aggop=0)),
+                         ("BFsAs", dict(n4_nm=0, n1_fn=0, n1_fnalt=0, n3_aop=0, n3_aggop=0)),
+                         ("BFAsAs", dict(n5_nm=0, n1_fn=0, n1_fnalt=0, n2_aop=0, n2_aggop=0, n4_aop=0, n4_aggop=0)),
+                         ("BAsFAs", dict(n2_nm=0, n3_fn=0, n3_fnalt=0, n1_aop=0, n1_aggop=0, n4_aop=0, n4_aggop=0))):
+            out += vv(D, sk, VV_QUICK, ulist=2, ulab=2, **pins)
+        return out
     return out
 
 
